@@ -247,7 +247,7 @@ Twin(e) ==
   ELSE
   LET ok == e.ret = "ok" /\ HasObs(e, d) /\ ~Broken(ObsOf(e, d))
       od == ObsOf(e, d)
-      src == IF HasObs(e, h) /\ ~Broken(ObsOf(e, h)) THEN ObsOf(e, h) ELSE lastobs[h]
+      src == IF h # d /\ HasObs(e, h) /\ ~Broken(ObsOf(e, h)) THEN ObsOf(e, h) ELSE lastobs[h]
       \* the copy shows what the original shows (visible), and has the same hidden GC state
       same == ok /\ Visible(od) = Visible(src) /\ ToSet(od.unread) = ToSet(src.unread) /\ ObsGroups(od) = ObsGroups(src)
       pos == ok /\ (IF kind = "clone" THEN od.nextv = src.nextv ELSE od.nextv \in {0, src.nextv})
